@@ -362,6 +362,109 @@ def case_merge(case):
     return finish_case(I, res)
 
 
+SAME_NAME = {
+    "struct": ("pub struct Cfg { pub a: u32 }", "pub struct Cfg { pub b: String }"),
+    "unit_enum": ("pub enum Cfg { Aa, Ab }", "pub enum Cfg { Ba }"),
+    "alg_enum": ('#[serde(tag = "t", content = "c")] pub enum Cfg { Aa(u32) }', '#[serde(tag = "t", content = "c")] pub enum Cfg { Ba { x: u32 } }'),
+    "alias": ("pub type Cfg = u32;", "pub type Cfg = String;"),
+    "const": ("pub const CFG: u32 = 1;", "pub const CFG: u32 = 2;"),
+}
+SAME_LAYOUT = {"modules": "pub mod v1 {\n%s\n}\npub mod v2 {\n%s\n}\n", "files": None, "fn_and_top": "%s\nfn holder() {\n%s\n}\n"}
+
+
+def samename_sources(kind, layout, renamed):
+    a, b = SAME_NAME[kind]
+    ra = '#[typeshare]\n#[serde(rename = "Qra")]\n' if renamed else "#[typeshare]\n"
+    rb = '#[typeshare]\n#[serde(rename = "Qrb")]\n' if renamed else "#[typeshare]\n"
+    if layout == "files":
+        return [ra + a + "\n", rb + b + "\n"]
+    return [SAME_LAYOUT[layout] % (ra + a, rb + b)]
+
+
+def case_samename(case):
+    """two annotated items of one kind with the same Rust name (different modules / files; serde names symbolic, possibly
+    equal): after the fold and reconcile_aliases both are still there"""
+    kind, layout, renamed = case
+    from vlib.mirsym.engine import new_interp
+    from vlib.mirsym import synast, pharness
+    from vlib.mirsym.models_core import clone_val
+    from vlib.mirsym import bharness
+    from checks.c06 import eqf
+    P = prog()
+    L = P.layout
+    I = new_interp(P)
+    srcs = samename_sources(kind, layout, renamed)
+    res = {"paths": 0, "violations": [], "case": list(case), "src": "\n".join(srcs)}
+    pn = L.structs["ParsedData"]
+    fld = {"struct": "structs", "unit_enum": "enums", "alg_enum": "enums", "alias": "aliases", "const": "consts"}[kind]
+
+    def syms():
+        return z3.BitVec("ra", 32), z3.BitVec("rb", 32)
+
+    def entry(I):
+        ra, rb = syms()
+        for c in (ra, rb):
+            I.assume(z3.And(z3.UGE(c, 65), z3.ULE(c, 90)))
+        parts = []
+        for i, src in enumerate(srcs):
+            f = synast.parse_source(P, src)
+            synast.plant(f, {"Qra": [ord("R"), ra], "Qrb": [ord("R"), rb]})
+            r = pharness.run_visitor(I, f, file_path="src/f%d.rs" % i)
+            if r.variant == 1:
+                parts.append(r.fields[0])
+        acc = I.call_static("<parser::ParsedData as std::default::Default>::default", [])
+        cell = [acc]
+        for pd in parts:
+            I.call_static("<parser::ParsedData as std::ops::AddAssign>::add_assign", [Ref(cell, 0), pd])
+        before = [clone_val(I, x) for x in cell[0].fields[pn.index(fld)].items]
+        errs = len(cell[0].fields[pn.index("errors")].items)
+        after_pd = bharness.reconcile_single(I, cell[0])
+        return before, list(after_pd.fields[pn.index(fld)].items), errs
+
+    for k, out, pc in I.explore(entry, max_paths=50):
+        res["paths"] += 1
+        if k == "panic":
+            res["violations"].append({"kind": "panic", "msg": out.msg}); continue
+        before, after, errs = out
+        m = None
+        if len(before) != 2 and not errs:
+            m = I.sat_model(z3.BoolVal(True)); what = "parsed %d of the 2 items" % len(before)
+        elif len(after) != len(before):
+            m = I.sat_model(z3.BoolVal(True)); what = "%d items before reconcile_aliases, %d after" % (len(before), len(after))
+        else:
+            for b in before:
+                conds = [eqf(b, a) for a in after]
+                if any(c is True for c in conds):
+                    continue
+                cs = [c for c in conds if c is not False]
+                mm = I.sat_model(z3.Not(z3.Or(cs))) if cs else I.sat_model(z3.BoolVal(True))
+                if mm is not None:
+                    m = mm; what = "an item is replaced by another one in reconcile_aliases"; break
+        if m is not None:
+            ra, rb = syms()
+            res["violations"].append({"kind": "same-name-item-lost", "what": what, "names": ["R" + chr(m.eval(c, model_completion=True).as_long()) for c in (ra, rb)]})
+    return finish_case(I, res)
+
+
+def native_samename(nat, case, names):
+    kind, layout, renamed = case
+    srcs = [s.replace("Qra", names[0]).replace("Qrb", names[1]) for s in samename_sources(kind, layout, renamed)]
+    files = [{"source": s, "crate_name": "", "file_name": "", "file_path": "src/f%d.rs" % i} for i, s in enumerate(srcs)]
+    r = nat.ask({"op": "generate", "lang": "typescript", "multi_file": False, "files": files, "config": {}})
+    out = r.get("out", {}).get("", None)
+    if out is None:
+        return None, str(r)[:200], srcs
+    defs = _re.findall(r"^export (?:interface|type|enum|const) (\w+)", out, _re.M)
+    want = ([names[0], names[1]] if renamed else ["Cfg", "Cfg"]) if kind != "const" else None
+    if kind == "const":
+        n = len([d for d in defs if d.upper() in ("CFG", names[0].upper(), names[1].upper())])
+    else:
+        n = len([d for d in defs if d in want])
+    if n < 2:
+        return True, "two annotated `%s` items named Cfg (%s%s): the TypeScript output defines %d of them (%s)" % (kind, layout, ", serde names %s" % names if renamed else "", n, defs), srcs
+    return False, "real output defines both (%s)" % defs, srcs
+
+
 def native_merge(nat, kinds):
     """the library pipeline on the same files in the same arrival order: every item defined / every error reported"""
     files = [{"source": MERGE_FILES[k] % ((i,) * MERGE_FILES[k].count("%d")), "crate_name": "", "file_name": "", "file_path": "src/f%d.rs" % i} for i, k in enumerate(kinds)]
@@ -594,7 +697,9 @@ def run(rep, tier, only=None):
     rep.bounds["merge"] = "2-3 files of kinds %s parsed from MIR and folded in order with `ParsedData += ParsedData`: every item and every error of every file survives" % sorted(MERGE_FILES)
     bk_cases = [(l, ks) for l in BK_LANGS for ks in (BK_ITEMS, ("struct", "const"), ("const",), ("alias", "unit_enum"), ("alg_enum", "struct"))]
     rep.bounds["backend"] = "every back end on IRs holding one item of each kind (struct with 3 fields, alias, unit enum, data enum with unit/tuple/struct variants, const) with symbolic names: each item defined exactly once, struct fields in order"
-    groups = [("annotation", "case_annotation", ann_cases), ("marker-word", "case_marker_word", word_cases), ("members", "case_members", mem_cases), ("file", "case_file", file_cases), ("merge", "case_merge", mg_cases), ("backend", "case_backend", bk_cases)]
+    sn_cases = [(k, l, r) for k in SAME_NAME for l in SAME_LAYOUT for r in (True, False)]
+    rep.bounds["same-name"] = "two annotated items of one kind (struct / unit enum / data enum / alias / const) with the same Rust name in two modules, two files, or top level + function body; serde names symbolic (may coincide) or absent: both survive the fold and reconcile_aliases"
+    groups = [("same-name", "case_samename", sn_cases), ("annotation", "case_annotation", ann_cases), ("marker-word", "case_marker_word", word_cases), ("members", "case_members", mem_cases), ("file", "case_file", file_cases), ("merge", "case_merge", mg_cases), ("backend", "case_backend", bk_cases)]
     for gname, fn, cases in groups:
         if only and gname not in only:
             continue
@@ -608,6 +713,20 @@ def run(rep, tier, only=None):
             if not r["violations"]:
                 if gname in ("annotation", "marker-word") and len(rep.samples) < 8:
                     rep.sample({"harness": gname, "case": case, "paths": r["paths"], "verdict": "generated exactly when the symbolic word is the trigger word (unsat otherwise)"})
+                continue
+            if gname == "same-name":
+                v = r["violations"][0]
+                if v["kind"] == "panic":
+                    rep.inconc("same-name %s: panic %s" % (case, v["msg"])); continue
+                ok, why, srcs = native_samename(nat, case, v["names"])
+                rep.validated += 1
+                sig = {"group": "same-name", "kind": v["kind"], "item": case[0]}
+                if ok:
+                    rep.violation(sig, why, {"kind": "same-name", "case": list(case), "names": v["names"], "source": "\n".join(srcs)})
+                elif ok is None:
+                    rep.inconc("replay failed for same-name %s: %s" % (case, why))
+                else:
+                    rep.inconc("engine mismatch in same-name %s: interpreter %s, real: %s" % (case, v, why))
                 continue
             if gname == "merge":
                 v = r["violations"][0]
@@ -671,6 +790,11 @@ def run(rep, tier, only=None):
 def replay(case):
     c = case["case"]
     rep = Replayer()
+    if c.get("kind") == "same-name":
+        ok, why, _ = native_samename(rep, tuple(c["case"]), c["names"])
+        rep.close()
+        print(why)
+        return 1 if ok else 0
     if c.get("kind") == "merge":
         ok, why, _ = native_merge(rep, tuple(c["kinds"]))
         rep.close()
